@@ -589,6 +589,9 @@ def run_readers(plan):
                             if during or state["maint_running"]:
                                 sim.stat("probe:lookup_during_maintenance")
                         except KeyError as e:
+                            if os.environ.get("VERIF_DEBUG_TB"):
+                                import traceback
+                                traceback.print_exc()
                             viols.append({
                                 "sig": f"C10/reader-spurious-missing/{op}",
                                 "detail": f"KeyError {e} for reachable "
